@@ -270,6 +270,19 @@ Theorem C16_beep_duration_general : forall pin neg tbl st f on off times,
 Proof. exact beep_duration_general. Qed.
 Print Assumptions C16_beep_duration_general.
 
+(* ---- when is the pin left sounding?  After ANY call sequence on a fresh buzzer: only if the last call
+   that emitted code at all was an untimed play_tone(f) with f > 0 (everything after it is a beep with
+   trunc(times) < 1 or a melody without score - the calls of F-C16-beep-zero-keeps-tone); and then
+   get_frequency() = get_last_frequency() = f exactly.  Every other sound has been stopped. *)
+Theorem C16_sounding_characterised : forall pin neg tbl default ops,
+  sounding (snd (run pin neg tbl (init default) ops)) = true ->
+  exists pre f post,
+    ops = pre ++ [PlayTone f None] ++ post /\ (0 < f)%Q /\ forallb (noop_call tbl) post = true /\
+    get_frequency (fst (run pin neg tbl (init default) ops)) = f /\
+    get_last_frequency (fst (run pin neg tbl (init default) ops)) = f.
+Proof. exact sounding_characterised. Qed.
+Print Assumptions C16_sounding_characterised.
+
 (* ---- non-vacuity *)
 Definition q (n : Z) : Q := Qmake n 1.
 
@@ -348,3 +361,12 @@ Example C16_nonvacuous_bounded_calls :
   nonneg_durations (PlayTone (q 440) (Some (q (-1)))) = false.
 Proof. vm_compute. repeat split. Qed.
 Print Assumptions C16_nonvacuous_bounded_calls.
+
+Example C16_nonvacuous_sounding :
+  let ops := [Sweep (q 440) (q 880) (q 50) (q 3); PlayTone (Qmake 881 2) None; Beep None (q 1) (q 1) (q 0)] in
+  sounding (snd (run 8 neg_literal emitter_melodies (init (q 440)) ops)) = true /\
+  noop_call emitter_melodies (Beep None (q 1) (q 1) (q 0)) = true /\
+  noop_call emitter_melodies (Melody n_siren None) = false /\
+  get_frequency (fst (run 8 neg_literal emitter_melodies (init (q 440)) ops)) = Qmake 881 2.
+Proof. vm_compute. repeat split. Qed.
+Print Assumptions C16_nonvacuous_sounding.
